@@ -119,6 +119,11 @@ def run(ctx):
                     exp += "Proxy-Authorization: Basic " + base64.b64encode(cred.encode()).decode() + "\r\n"
                 exp += "\r\n"
                 pub = {"url": url, "auth": auth, "status": status}
+                if ctx.model:
+                    m = ctx.model.run([f"tunnelreq {hx(host.encode())} {port} " + ("none none" if not (auth and auth[0]) else
+                                       f"{hx(auth[0].encode())} {hx(auth[1].encode()) if auth[1] else 'none'}")])[0]
+                    if bytes.fromhex(m.replace("-", "")) != exp.encode():
+                        T.fail("corr", pub if False else {"url": url, "auth": auth}, exp, m, {"site": "tunnelreq"})
                 if not written.startswith(exp.encode()):
                     T.fail("spec", pub, exp, written[:200].decode("latin-1"), {"site": "_tunnel", "cls": "connect-request"},
                            what="the first bytes sent to the proxy are not the documented CONNECT request")
